@@ -896,3 +896,81 @@ theorem run_items (P : Profile) (limit : Nat) (cont : DecSt → DP) (its : List 
         exact ⟨by simp only [Nat.add_assoc], by rw [this.2]; omega⟩
 
 end Fit
+
+namespace Fit
+open Fit.Crc
+
+/-! ### well-formedness of an item list in terms of the definition table alone -/
+
+/-- the definition table after an item (when the machine accepts it) -/
+def defsAfter (P : Profile) (defs : List (Option DefMsg)) : Item → List (Option DefMsg)
+  | .defn d devBit =>
+    if d.global = mesgNumInvalid ∨ (!(d.fields.all (validateFieldDef P d.global))) = true then defs
+    else setAt defs d.localT (some (if devBit then d else { d with dev := [] }))
+  | _ => defs
+
+def ItemOKD (defs : List (Option DefMsg)) : Item → Prop
+  | .defn d devBit => DefnWF d devBit
+  | .data l fs dev => l < 16 ∧ ∀ dm, defs.getD l none = some dm → FieldsFit dm.fields fs ∧ DevFit dm.dev dev
+  | .cdata l off fs dev => l < 4 ∧ off < 32 ∧ ∀ dm, defs.getD l none = some dm → FieldsFit dm.fields fs ∧ DevFit dm.dev dev
+
+/-- every item can be written as bytes and every data item fits the definition that is live for
+    its local type at that point of the list -/
+def ItemsFitD (P : Profile) : List (Option DefMsg) → List Item → Prop
+  | _, [] => True
+  | defs, it :: its => ItemOKD defs it ∧ ItemsFitD P (defsAfter P defs it) its
+
+theorem ItemOKD.toOK (st : DecSt) (it : Item) (h : ItemOKD st.defs it) : ItemOK st it := by
+  cases it <;> exact h
+
+theorem stepItem_defs (P : Profile) (st st' : DecSt) (it : Item) (hok : ItemOK st it)
+    (h : stepItem P st it = .ok st') : st'.defs = defsAfter P st.defs it := by
+  cases it with
+  | defn d devBit =>
+    unfold stepItem at h
+    simp only at h
+    simp only [defsAfter]
+    split at h
+    · cases h
+    · rename_i hg
+      split at h
+      · cases h
+      · rename_i hall
+        cases h
+        have : ¬ (d.global = mesgNumInvalid ∨ (!(d.fields.all (validateFieldDef P d.global))) = true) := by
+          intro hh; rcases hh with hh | hh
+          · exact hg hh
+          · exact hall hh
+        simp only [if_neg this]
+        rfl
+  | data l fs dev =>
+    simp only [stepItem] at h
+    obtain ⟨hl, hfit⟩ := hok
+    have := (stepData_n P l false fs dev (st.eat [u8 l]) st' (by
+      intro dm hdm
+      simp only [Bool.false_eq_true, ↓reduceIte, DecSt.eat, Nat.mod_eq_of_lt hl] at hdm
+      exact hfit dm hdm) h).2
+    rw [this]; rfl
+  | cdata l off fs dev =>
+    simp only [stepItem] at h
+    obtain ⟨hl, ho, hfit⟩ := hok
+    obtain ⟨_, hlt, _⟩ := cdata_header_bits l off hl ho
+    have := (stepData_n P (0x80 + l * 32 + off) true fs dev (st.eat [u8 (0x80 + l * 32 + off)]) st' (by
+      intro dm hdm
+      simp only [↓reduceIte, DecSt.eat, hlt] at hdm
+      exact hfit dm hdm) h).2
+    rw [this]; rfl
+
+theorem ItemsFitD.toFit (P : Profile) (its : List Item) (st : DecSt) (h : ItemsFitD P st.defs its) :
+    ItemsFit P st its := by
+  induction its generalizing st with
+  | nil => trivial
+  | cons it its ih =>
+    obtain ⟨hok, hrest⟩ := h
+    refine ⟨hok.toOK, ?_⟩
+    intro st' hstep
+    apply ih
+    rw [stepItem_defs P st st' it hok.toOK hstep]
+    exact hrest
+
+end Fit
